@@ -205,25 +205,35 @@ impl SlabRouter {
                 crate::verif_hooks::yield_point("store.emb.put");
                 // Also store metadata (always includes the embedding for retrieval)
                 self.metadata.set(key, value);
+                #[cfg(neumann_verif)]
+                crate::verif_hooks::yield_point("store.put.applied");
                 Ok(())
             },
             KeyClass::Graph => {
                 // Graph operations need special handling based on entity type
                 self.metadata.set(key, value);
+                #[cfg(neumann_verif)]
+                crate::verif_hooks::yield_point("store.put.applied");
                 Ok(())
             },
             KeyClass::Table => {
                 // Tables are handled via RelationalSlab API
                 self.metadata.set(key, value);
+                #[cfg(neumann_verif)]
+                crate::verif_hooks::yield_point("store.put.applied");
                 Ok(())
             },
             KeyClass::Cache => {
                 let size = Self::estimate_size(&value);
                 self.cache.put(key, value, 1.0, size);
+                #[cfg(neumann_verif)]
+                crate::verif_hooks::yield_point("store.put.applied");
                 Ok(())
             },
             KeyClass::Metadata => {
                 self.metadata.set(key, value);
+                #[cfg(neumann_verif)]
+                crate::verif_hooks::yield_point("store.put.applied");
                 Ok(())
             },
         }
